@@ -26,6 +26,8 @@ def run(ctx):
     recheck.address_scans_author_scoped(ctx, s)
     lifecycle.kind_classes(ctx, s)
     lifecycle.replacement_shape(ctx, s)
+    lifecycle.removal_scan_window(ctx, s)
+    lifecycle.lookup_skips_only_other_addresses(ctx, s)
     storage.gating_checks_use_write_txn(ctx, s)
     txn.effects_use_callers_txn(ctx, s, "pocket_db::Store::store_event")
     lossy_rechecks(ctx, s)
